@@ -1274,7 +1274,9 @@ def _rolling_sum_or_mean_1d(
 
             if group_non_null[key] >= min_periods:
                 if want_mean:
-                    out[i] = group_sums[key] / group_non_null[key]
+                    # min_periods=0 admits an empty window, whose mean stays null
+                    if group_non_null[key] > 0:
+                        out[i] = group_sums[key] / group_non_null[key]
                 else:
                     out[i] = group_sums[key]
 
